@@ -119,7 +119,7 @@ def plan(tier):
     if tier == "quick":
         names = ["chain", "csum-deep", "always", "fail", "dynamic", "ifcreate"]
         return [(W[n], alphabet, 3, 1) for n in names] + [(world_u(), alphabet_u, 2, 2)]
-    return [(W[n], alphabet, 4) for n in W] + [(world_u(), alphabet_u, 4, 3)]
+    return [(W[n], alphabet, 4) for n in W if n not in worlds.OWN_ALPHABET] + [(world_u(), alphabet_u, 4, 3)]
 
 
 # ---------------------------------------------------------------------------
